@@ -4,6 +4,7 @@ import (
 	"bytes"
 	"fmt"
 	"runtime"
+	"sort"
 	"testing"
 
 	kit "github.com/dapr/kit/crypto"
@@ -285,6 +286,26 @@ func TestSupportedLists(t *testing.T) {
 	}
 	if !setEq(symNames(), kit.SupportedSymmetricAlgorithms()) || !setEq(enc, kit.SupportedAsymmetricAlgorithms()) || !setEq(sig, kit.SupportedSignatureAlgorithms()) {
 		t.Fatalf("C03 harness tables out of date: kit lists %v / %v / %v", kit.SupportedSymmetricAlgorithms(), kit.SupportedAsymmetricAlgorithms(), kit.SupportedSignatureAlgorithms())
+	}
+	// A caller that filters, sorts or overwrites the list IT was handed (the usual `out := list[:0]` idiom) does not
+	// change what the package supports: every sweep of this check runs after this, in the same process, and "for every
+	// algorithm the package lists as supported ... decryption inverts encryption" goes on holding for the algorithms
+	// that were listed (and the lists read the same when asked again).
+	for _, get := range []func() []string{kit.SupportedSymmetricAlgorithms, kit.SupportedAsymmetricAlgorithms, kit.SupportedSignatureAlgorithms} {
+		mine := get()
+		out := mine[:0]
+		for i, a := range mine {
+			if i%2 == 1 {
+				out = append(out, a)
+			}
+		}
+		for i := range mine[len(out):] {
+			mine[len(out)+i] = "removed-by-the-caller"
+		}
+		sort.Sort(sort.Reverse(sort.StringSlice(out)))
+	}
+	if !setEq(symNames(), kit.SupportedSymmetricAlgorithms()) || !setEq(enc, kit.SupportedAsymmetricAlgorithms()) || !setEq(sig, kit.SupportedSignatureAlgorithms()) {
+		t.Fatalf("C03 supported-algorithm lists violated: after a caller modified in place the lists IT had been handed, the package lists %v / %v / %v", kit.SupportedSymmetricAlgorithms(), kit.SupportedAsymmetricAlgorithms(), kit.SupportedSignatureAlgorithms())
 	}
 }
 
